@@ -127,7 +127,7 @@ def build(ck, tier, seed, silent_services=None):
         for pre in (0, len(g["canon"])):
             for i in range(1, len(g["tokens"]) + 1):
                 core.append({"prefix": pre, "ops": [{"o": "tok", "i": i}], "ending": "close" if pre == 0 else "shut", "seg": "whole", "k": 1})
-            for c in range(1, 6):
+            for c in sorted(P.RAW):
                 core.append({"prefix": pre, "ops": [{"o": "raw", "i": c}], "ending": "close", "seg": "whole", "k": 1})
             core.append({"prefix": pre, "ops": [{"o": "trunc", "i": 0}], "ending": "shut", "seg": "whole", "k": 1})
         core.append({"prefix": len(g["canon"]), "ops": [], "ending": "shut", "seg": "dribble", "k": 2})
@@ -184,6 +184,13 @@ def build(ck, tier, seed, silent_services=None):
             scs.append({"id": sid, "svc": "ssh-simulator", "ending": "close", "steps": [],
                         "ssh": {"laddr": "127.0.0.1:22", "raddr": "10.60.%d.%d:5000" % (sid // 250, 1 + sid % 250), "channel": chan,
                                 "requests": [{"type": t, "payload": p} for t, p in reqs], "lines": ["ls\r", "exit\r"]}})
+    # the shell's line editor: escape sequences that never end (RAW classes 6 and 7), then the peer leaves
+    for c in ((6, 7) if (not only or "ssh-simulator" in only) else ()):
+        sid = len(scs)
+        scs.append({"id": sid, "svc": "ssh-simulator", "ending": "close", "steps": [],
+                    "ssh": {"laddr": "127.0.0.1:22", "raddr": "10.60.%d.%d:5000" % (sid // 250, 1 + sid % 250), "channel": "session",
+                            "requests": [{"type": "shell", "payload": ""}],
+                            "lines": ["ls\r", P.RAW[c].decode("latin-1"), "exit\r"]}})
     return scs
 
 
